@@ -375,4 +375,19 @@ def simplify(d):
 
 
 def simp_set(ds):
-    return sorted(simplify(d) for d in ds)
+    out = sorted({_collapse(simplify(d)) for d in ds})
+    return out
+
+
+import re as _re
+_ACC = _re.compile(r"(_add_declaration_specifier)#\d+")
+
+
+def _collapse(text):
+    """Accumulator results threaded through many call sites (spec = add(spec, ...)) are not told apart by ordinal."""
+    text = _ACC.sub(r"\1#*", text)
+    # a|b|c lists produced inside list/tuple renderings: dedupe after collapsing
+    def dedupe(m):
+        parts = sorted(set(m.group(0).split("|")))
+        return "|".join(parts)
+    return _re.sub(r"[^\[\], ]+(?:\|[^\[\], ]+)+", dedupe, text)
